@@ -99,13 +99,19 @@ Fixpoint expand_blocks (s : schema) (e : ebody) (partial : bool) (raws : list (b
 Definition prepare_attrs (e : ebody) (l : list (attr jvalue)) : list (attr jvalue) :=
   filter (fun a => negb (mem (aname a) (ehA e))) l.
 
+(* hiddenBlocks is a Go map keyed by the block type: `remain.hiddenBlocks[blockS.Type] = blockS`
+   for the schema's entries in order — a later entry for the same type REPLACES the earlier one
+   (the order of the entries of a map with unique keys is not observable by any consumer) *)
+Definition hid_set (h : list (name * Z)) (b : name * Z) : list (name * Z) :=
+  filter (fun x => negb (String.eqb (fst x) (fst b))) h ++ [b].
+
 (* func (b *expandBody) PartialContent: the remaining body hides ALL names of
    the schema and keeps the whole original *)
 Definition epartial (s : schema) (e : ebody) : content jvalue * ebody * list diag :=
   let '(raw, _, d) := b_partial I (extend_schema s e) (eorig e) in
   let '(bs, bd) := expand_blocks s e true (cblocks raw) in
   ({| cattrs := prepare_attrs e (cattrs raw); cblocks := bs |},
-   {| eorig := eorig e; ehA := ehA e ++ attr_names s; ehB := ehB e ++ sblocks s |},
+   {| eorig := eorig e; ehA := ehA e ++ attr_names s; ehB := fold_left hid_set (sblocks s) (ehB e) |},
    d ++ bd).
 
 (* func (b *expandBody) Content *)
